@@ -78,7 +78,20 @@ def uri_case(r):
             b'\xe2\x82\xac', b'%u20ac', b'..', b'.', b'%252e', b'A\\B', b'\xf0\x9f\x98\x80']
     path = b'/' + b'/'.join(r.pick(segs) for _ in range(r.randint(1, 8)))
     q = b'?' + b'&'.join(b'k%d=%s' % (i, r.pick(segs)) for i in range(r.randint(0, 4)))
-    auth = b'Authorization: Basic %s\r\n' % r.pick([b'dXNlcjpwYXNz', b'YTpi', b'!!!!', b'dXNlcg=='])
+    import base64
+    user = bytes(r.randrange(97, 123) for _ in range(r.randint(1, 40)))
+    k = r.randrange(6)
+    if k < 2:
+        auth = b'Authorization: Basic %s\r\n' % r.pick([b'dXNlcjpwYXNz', b'YTpi', b'!!!!', b'dXNlcg=='])
+    elif k == 2:
+        # credentials that differ from connection to connection (what a neighbour leaves behind on the heap is then recognisable)
+        auth = b'Authorization: Basic %s\r\n' % base64.b64encode(user + b':' + bytes(r.randrange(33, 127) for _ in range(r.randint(0, 30))))
+    elif k < 5:
+        # Digest user names with quoted-pairs (DOMAIN\user, escaped quotes) of varying length
+        qs = r.pick([b'DOM\\' + user, user + b'\\' + user[:3] + b'\\x', b'a\\"' + user, user, b'\\' * r.randint(1, 6) + user, user + b'@corp\\.example'])
+        auth = b'Authorization: Digest username="%s", realm="r%d", nonce="n", uri="/", response="%s"\r\n' % (qs, r.randrange(100), user[:8])
+    else:
+        auth = b'Authorization: Bearer %s\r\n' % base64.b64encode(user)
     ck = b'Cookie: a=%d; b=c; %s\r\n' % (r.randrange(1000), r.pick(segs))
     return [(REQ, b'GET ' + path + q + b' HTTP/1.1\r\nHost: h%d.example\r\n' % r.randrange(50) + auth + ck + b'\r\n'), (RES, OKRES), (CLOSE, None)]
 
